@@ -946,13 +946,15 @@ CanStart(s) ==
        THEN P.thr[s] <= Cardinality(Upstream(s))
             /\ Cardinality({u \in Upstream(s) : st[u].status \in Continuable}) >= P.thr[s]
        ELSE \A u \in Upstream(s) : st[u].status \in Continuable
+BeforeKidsPending(s) ==    \* the last before-child to complete starts the first task (ContinueParentStage)
+  \E k \in DOMAIN st : P.parent[k] = s /\ P.owner[k] = "BEFORE" /\ st[k].status \notin Complete
 RecFor(s) ==
   IF st[s].status = "RUNNING"
   THEN LET R == SelectSeq(TasksOf(s), LAMBDA t : tk[t].status = "RUNNING")
            N == SelectSeq(TasksOf(s), LAMBDA t : tk[t].status = "NOT_STARTED")
        IN IF R # <<>> THEN Map(RunTaskM, SelectSeq(R, LAMBDA t : ~PendingFor(t)))
           ELSE IF N # <<>> /\ st[s].started
-               THEN (IF PendingFor(N[1]) THEN <<>> ELSE <<StartTaskM(N[1])>>)
+               THEN (IF BeforeKidsPending(s) \/ PendingFor(N[1]) THEN <<>> ELSE <<StartTaskM(N[1])>>)
           ELSE <<StartStageM(s)>>
   ELSE IF st[s].status = "NOT_STARTED" /\ (HasStarted(s) \/ CanStart(s)) THEN <<StartStageM(s)>>
   ELSE <<>>
